@@ -80,7 +80,11 @@ Captured(sh, snap) ==
     (IF "v" \in fv THEN {snap.v} ELSE {}) \cup (IF "G" \in fv THEN {snap.G} ELSE {})
       \cup (IF "w" \in fv THEN {snap.wc} ELSE {}) \cup (IF KC \in subs THEN {snap.C} ELSE {})
       \cup (IF KD \in subs THEN {snap.D} ELSE {}) \cup (IF AM \in subs THEN {snap.M} ELSE {})
-Refused(sh, snap) == NT \in Captured(sh, snap)
-UsesDeleted(sh, snap) == Deleted \in Captured(sh, snap)
+(* a closure variable deleted (del v) before the call: Python itself could not evaluate the lambda - the call is refused, *)
+(* never answered with a same-named value from somewhere else                                                         *)
+ClosureDeleted(sh, snap) == snap.v = Deleted /\ "v" \in FV(ShapeTerm(sh))
+Refused(sh, snap) == NT \in Captured(sh, snap) \/ ClosureDeleted(sh, snap)
+(* (a deleted GLOBAL: such builds are not part of the histories) *)
+UsesDeleted(sh, snap) == snap.G = Deleted /\ "G" \in FV(ShapeTerm(sh))
 
 =============================================================================
